@@ -651,8 +651,10 @@ char* MemoryLeakDetector::allocateMemoryWithAccountingInformation(TestMemoryAllo
 char* MemoryLeakDetector::reallocateMemoryWithAccountingInformation(TestMemoryAllocator* /*allocator*/, char* memory, size_t size, const char* /*file*/, size_t /*line*/, bool allocatNodesSeperately)
 {
     if (sizeWithAccountingInformationOverflows(size)) return NULLPTR;
-    if (allocatNodesSeperately) return (char*) PlatformSpecificRealloc(memory, sizeOfMemoryWithCorruptionInfo(size));
-    else return (char*) PlatformSpecificRealloc(memory, sizeOfMemoryWithCorruptionInfo(size) + sizeof(MemoryLeakDetectorNode));
+    size_t totalSize = sizeOfMemoryWithCorruptionInfo(size);
+    if (!allocatNodesSeperately) totalSize += sizeof(MemoryLeakDetectorNode);
+    if (totalSize == 0) totalSize = 1; /* realloc(p, 0) may release p */
+    return (char*) PlatformSpecificRealloc(memory, totalSize);
 }
 
 MemoryLeakDetectorNode* MemoryLeakDetector::createMemoryLeakAccountingInformation(TestMemoryAllocator* allocator, size_t size, char* memory, bool allocatNodesSeperately)
